@@ -559,12 +559,20 @@ func (c09) Execute(env *Env) {
 // found" keeps the segment before it too (the call site that missed), so that a
 // listed finding names one site and not every cache miss.
 func errSigSite(msg string) string {
-	if i := lastIndex(msg, ": "); i >= 0 && msg[i+2:] == "not found" {
-		if j := lastIndex(msg[:i], ": "); j >= 0 {
-			return stripIDs(msg[j+2:])
+	seg := msg
+	if i := lastIndex(msg, ": "); i >= 0 {
+		seg = msg[i+2:]
+		if seg == "not found" {
+			if j := lastIndex(msg[:i], ": "); j >= 0 {
+				seg = msg[j+2:]
+			}
 		}
 	}
-	return stripIDs(errSigStr(msg))
+	seg = stripIDs(seg)
+	if len(seg) > 64 {
+		seg = seg[:64]
+	}
+	return seg
 }
 
 var uuidRe = regexp.MustCompile(`[0-9a-fA-F-]{8,}`)
